@@ -190,7 +190,7 @@ def cases(tier, seed, shard, nshards):
         for term in ("field-own", "field-str", "star-str", "star", "const", "const-str-wrapped", "arith-own", "arith-foreign", "field-foreign",
                      "field-joined", "function", "aggregate", "null", "tuple", "field-equal-copy", "field-temporal-copy",
                      "arith-mixed", "arith-mixed-rev", "arith-own-joined", "arith-joined-own", "arith-joined-foreign", "tuple-mixed",
-                     "arith-own-own", "nested-arith-mixed"):
+                     "arith-own-own", "nested-arith-mixed", "star-foreign", "star-joined", "star-equal-copy", "star-foreign-aliased"):
             k += 1
             if k % nshards == shard:
                 yield {"k": "returning", "stmt": stmt, "term": term}
@@ -632,6 +632,18 @@ def run_returning(case, mon):
     elif term == "star":
         arg = t.star
         tables = [t]
+    elif term == "star-foreign":
+        arg = f.star
+        tables = [f]
+    elif term == "star-joined":
+        arg = u.star
+        tables = [u]
+    elif term == "star-equal-copy":
+        arg = T("t").star
+        tables = [T("t")]
+    elif term == "star-foreign-aliased":
+        arg = T("t").as_("other").star
+        tables = [T("t").as_("other")]
     elif term == "const":
         arg = 5
     elif term == "const-str-wrapped":
